@@ -569,3 +569,19 @@ fn enc_writer() {
     }));
     report(r);
 }
+
+#[test]
+fn enc_nonce() {
+    let ctr = v_u64("ctr", 1) as u32;
+    let r = catch_unwind(|| -> Option<String> {
+        let n = build_nonce(NONCE, ctr);
+        let mut want = [0u8; 12];
+        want[..8].copy_from_slice(&NONCE);
+        want[8..].copy_from_slice(&ctr.to_be_bytes());
+        if n != want {
+            return Some(format!("chunk nonce for counter {ctr} is {n:02x?}, the format says archive nonce || BE32(counter) = {want:02x?}"));
+        }
+        None
+    });
+    report(r);
+}
